@@ -342,6 +342,45 @@ theorem infer_nword_given (sg : Bool) (vals : List ℚ) (hne : vals ≠ []) (F :
       · exact ⟨_, hMmem, kM, hkM, by simpa using h1⟩
   · rw [← hf', hsign]; congr 2; split <;> simp
 
+/-- **C06, only `n_frac` given** (`n_frac ≥ 0`, result below the cap): the fraction length is kept and the word is minimal —
+`n_frac + nint + sign` where `nint` is the fewest integer bits such that both extremes, truncated to the `2^-n_frac` grid,
+fit in `n_frac + nint` magnitude bits (one bit fewer no longer holds one of them). -/
+theorem infer_nfrac_given (sg : Bool) (vals : List ℚ) (fq : ℕ) (w f : ℤ)
+    (hb : bestSizes sg vals none (some (fq : ℤ)) = (w, f)) (hcap : w < 64) :
+    ∃ nint : ℕ, f = fq ∧ w = (fq : ℤ) + nint + (if sg then 1 else 0) ∧
+      Chk.fitsBits (truncInt (listMaxR vals * 2 ^ fq)) (max (fq + nint) fq) = true ∧
+      Chk.fitsBits (truncInt (listMinR vals * 2 ^ fq)) (max (fq + nint) fq) = true ∧
+      (nint = 0 ∨ ¬ (Chk.fitsBits (truncInt (listMaxR vals * 2 ^ fq)) (fq + nint - 1) = true ∧
+                     Chk.fitsBits (truncInt (listMinR vals * 2 ^ fq)) (fq + nint - 1) = true)) := by
+  set sign : ℕ := if sg then 1 else 0 with hsign
+  have hcastpow : (((2 ^ ((fq : ℤ)).toNat : ℕ)) : ℚ) = 2 ^ fq := by
+    rw [Int.toNat_natCast]; push_cast; rfl
+  set kM := truncInt (listMaxR vals * 2 ^ fq) with hkM
+  set km := truncInt (listMinR vals * 2 ^ fq) with hkm
+  set bits := intLoop (kM.natAbs + km.natAbs + 2) kM km 0 with hbits
+  obtain ⟨⟨fM, fm⟩, hminbits⟩ := intBits_min kM km
+  have hbs : bestSizes sg vals none (some (fq : ℤ)) =
+      (min (min ((nWordMax : ℤ) - sign - max ((bits : ℤ) - fq) 0) fq + max ((bits : ℤ) - fq) 0 + sign) nWordMax,
+       min ((nWordMax : ℤ) - sign - max ((bits : ℤ) - fq) 0) fq) := by
+    unfold bestSizes
+    simp only [← hsign, hcastpow, ← hkM, ← hkm, ← hbits]
+  rw [hbs] at hb
+  obtain ⟨hw', hf'⟩ := (Prod.mk.injEq _ _ _ _).mp hb
+  unfold nWordMax at hw' hf'
+  set nintN : ℕ := bits - fq with hnint
+  have hnintZ : max ((bits : ℤ) - fq) 0 = (nintN : ℤ) := by omega
+  rw [hnintZ] at hw' hf'
+  have hs1 : sign ≤ 1 := by rw [hsign]; split <;> omega
+  have hfeq : f = fq := by omega
+  have hweq : w = (fq : ℤ) + nintN + sign := by omega
+  refine ⟨nintN, hfeq, ?_, ?_, ?_, ?_⟩
+  · rw [hweq]; congr 1; rw [hsign]; split <;> simp
+  · exact fitsBits_mono kM (by omega) fM
+  · exact fitsBits_mono km (by omega) fm
+  · by_cases hz : nintN = 0
+    · left; exact hz
+    · right; exact hminbits (fq + nintN - 1) (by omega)
+
 /-- if `n_int` is given with one other size, the third follows arithmetically (no search). -/
 theorem infer_nint_arith (sg : Bool) (vals : List ℚ) (wq fq i : ℤ) :
     (inferFmt (some sg) none (some fq) (some i) vals =
